@@ -612,7 +612,20 @@ impl GRLParser {
 
     /// Extract salience value from attributes section
     fn extract_salience(&self, attributes_section: &str) -> Result<i32> {
-        if let Some(captures) = salience_regex().captures(attributes_section) {
+        // Quoted strings (a description, group names) are not attribute text: a description
+        // that mentions "salience 7" must not override the rule's own salience
+        let mut outside_quotes = String::with_capacity(attributes_section.len());
+        let mut in_quotes = false;
+        for ch in attributes_section.chars() {
+            if ch == '"' {
+                in_quotes = !in_quotes;
+                outside_quotes.push(' ');
+            } else if !in_quotes {
+                outside_quotes.push(ch);
+            }
+        }
+
+        if let Some(captures) = salience_regex().captures(&outside_quotes) {
             if let Some(salience_match) = captures.get(1) {
                 return salience_match
                     .parse::<i32>()
